@@ -40,6 +40,11 @@ pub struct GenCfg {
     pub bulk: Option<(usize, usize)>,
     /// weights of the id-pool shapes: dense from 0, dense from a small offset (plus edge ids), random u32s
     pub pool_weights: [u32; 3],
+    /// grow / shrink / regrow: the first three rounds (the history must have at least three) additionally add n
+    /// consecutive pool ids, delete all of them but every 20th, and add the next 1.5 n pool ids - a large insertion
+    /// into a small forest that a mass deletion has left full of free node ids. (lo, hi) bounds n; pools must hold
+    /// 2.5 n ids.
+    pub regrow: Option<(usize, usize)>,
 }
 
 pub fn small_dims() -> Vec<(u32, Vec<usize>)> {
@@ -87,6 +92,7 @@ impl GenCfg {
             cancel_pct: 0,
             bulk: None,
             pool_weights: [6, 2, 1],
+            regrow: None,
         }
     }
 
@@ -214,6 +220,28 @@ fn round(cfg: &GenCfg, n_ix: usize, first: bool) -> BoxedStrategy<Round> {
 }
 
 pub fn history(cfg: &GenCfg) -> BoxedStrategy<HistorySpec> {
+    if let Some((lo, hi)) = cfg.regrow {
+        return (history_plain(cfg), lo..=hi, any::<u32>())
+            .prop_map(|(mut spec, n, vseed0)| {
+                let pool = spec.indexes[0].ids.len();
+                let n = n.min(pool * 2 / 5).max(1);
+                let slot = |i: usize| ((i << 16).div_ceil(pool)).min(65535) as u16;
+                let add = |i: usize| Op::Add { ix: 0, slot: slot(i), vseed: vseed0.wrapping_add(i as u32) };
+                let plan: [Vec<Op>; 3] = [
+                    (0..n).map(add).collect(),
+                    (0..n).filter(|i| i % 20 != 0).map(|i| Op::Del { ix: 0, slot: slot(i) }).collect(),
+                    (n..n + n * 3 / 2).map(add).collect(),
+                ];
+                for (r, ops) in plan.into_iter().enumerate() {
+                    if let Some(round) = spec.rounds.get_mut(r) {
+                        let tail = std::mem::take(&mut round.ops);
+                        round.ops = ops.into_iter().chain(tail).collect();
+                    }
+                }
+                spec
+            })
+            .boxed();
+    }
     match cfg.bulk {
         None => history_plain(cfg),
         Some((lo, hi)) => (history_plain(cfg), 0u8..4, lo..=hi, any::<u32>())
